@@ -330,20 +330,38 @@ class Interp:
                                     feasible = False
                                     break
                                 e2[x] = r
-                                src = alias.get(x)
-                                if src is not None and src in e2:
-                                    r2 = self._refine(e2[src], o, other.lo, other.hi, truth)
-                                    if r2 is None:
-                                        feasible = False
-                                        break
-                                    e2[src] = r2
+                                # every local that currently holds the same value (copies of one source) is refined with it
+                                src = alias.get(x, x)
+                                same = {y for y, sy in alias.items() if sy == src} | {src}
+                                for y in same - {x}:
+                                    if y in e2:
+                                        r2 = self._refine(e2[y], o, other.lo, other.hi, truth)
+                                        if r2 is None:
+                                            feasible = False
+                                            break
+                                        e2[y] = r2
+                                if not feasible:
+                                    break
                     if feasible:
                         self._flow(inn, tb, e2)
             elif k in ("call", "tailcall", "drop"):
-                # calls are outside the fragment: the destination becomes unknown
+                # calls are outside the fragment: the destination becomes unknown - except lossless integer conversions
+                # (u64::from(x), x.into()), which are the identity on the value
+                fname = (t.get("func") or {}).get("resolved") or (t.get("func") or {}).get("fn") or ""
+                conv = bool(__import__("re").search(r"convert::(From|Into)(<[^>]*>)?>?::(from|into)$|::num::<impl .*From<.*> for .*>::from$", fname)) and len(t.get("args", [])) == 1
                 if t.get("dest") and not t["dest"].get("p"):
-                    env[t["dest"]["l"]] = top(fn.locals[t["dest"]["l"]].get("ty", ""))
-                self.notes.append("call at line %s treated as unknown" % t.get("line"))
+                    dl = t["dest"]["l"]
+                    dty = fn.locals[dl].get("ty", "")
+                    if conv and dty in U:
+                        a = self.operand(env, t["args"][0])
+                        if a.lo >= 0 and a.hi < (1 << U[dty]):
+                            env[dl] = a.copy()
+                        else:
+                            env[dl] = top(dty)
+                    else:
+                        env[dl] = top(dty)
+                if not conv:
+                    self.notes.append("call at line %s treated as unknown" % t.get("line"))
                 if t.get("t") is not None:
                     self._flow(inn, t["t"], env)
             else:
